@@ -306,6 +306,9 @@ class Server:
         self.config_text = config_text
         self.extra_args = list(extra_args)
         self.tls = tls
+        if wrapper is None and os.environ.get("SIRCV_WRAPPER"):
+            wrapper = os.environ["SIRCV_WRAPPER"].split()  # e.g. valgrind (thorough tier of C05)
+            start_timeout = max(start_timeout, 90.0)
         self.wrapper = wrapper
         self.start_timeout = start_timeout
         self.proc = None
